@@ -8,6 +8,7 @@ import (
 	"regexp"
 	"sort"
 	"strings"
+	"time"
 
 	"verif/core"
 	"verif/sut"
@@ -88,6 +89,25 @@ func c08Many(env *core.Env, c *c08Case) core.Verdict {
 	}
 	if c.Cmd == "format" {
 		_ = run(rootB, []string{"regex", "format", "words"})
+	}
+	// once more on a build with the race detector (a third copy of the tree): files that are processed side by side must
+	// not share unsynchronised state
+	if rb, err := env.Variant(sut.BuildOpts{Tags: "verif", Race: true}); err == nil {
+		rootC := filepath.Join(sandbox, "race", "crs")
+		if err := tree.Write(rootC); err == nil {
+			rr := sut.Run(sut.Cmd{Bin: rb, Args: append([]string{"-d", rootC}, allArgs...), Dir: rootC, Timeout: 300 * time.Second})
+			if rr.Class() == sut.ClassFault {
+				return core.Viol("data-race:"+c.Cmd, "%v on the build with the race detector: %s", allArgs, describe(rr))
+			}
+			if rr.Class() != sut.ClassTimeout {
+				if d := sut.Diff(sut.Snap(rootA), sut.Snap(rootC)); len(d) > 0 {
+					return core.Viol("all-differs-between-builds:"+c.Cmd, "%v leaves other files on the build with the race detector than on the ordinary build: %v", allArgs, d)
+				}
+				v.Counts["race_detector_runs"]++
+			}
+		}
+	} else {
+		v.Counts["race_build_unavailable"]++
 	}
 	if (c.Cmd == "update" || c.Cmd == "format") && failed > 0 {
 		return core.Incon("%d single invocations fail under a limit of %d descriptors", failed, limit)
@@ -424,7 +444,7 @@ func init() {
 	register(&core.Property{
 		ID:    "C08",
 		Level: "exploration",
-		Rule: "generated CRS trees with 2..n assembly files (sharing stored-expression name st1 and definition name d1, different flags/prefixes/suffixes, chain offsets, include and include-except users, cmdline blocks) are copied; copy A gets update / format / compare (text and github) --all, copies B1..B3 get the same command once per file in three PRNG-chosen orders. For half of the compare cases some rules are updated first, so that current and stale rules are mixed. A part of the trees spell chain offsets in file names with leading zeros or as -chain0. A quarter of the trees each carry a leak construction: the last file in walk order appends a stored name that only the first file stores (must fail like the single invocation does), references a definition that only the first file makes, or follows a file with flags, prefix and suffix. A further lane runs the four commands on a synthetic tree of 50..70 assembly files (each includes a word list, a configuration file exists) with at most 40 open file descriptors (prlimit): --all must do what the single invocations do under the same limit. " +
+		Rule: "generated CRS trees with 2..n assembly files (sharing stored-expression name st1 and definition name d1, different flags/prefixes/suffixes, chain offsets, include and include-except users, cmdline blocks) are copied; copy A gets update / format / compare (text and github) --all, copies B1..B3 get the same command once per file in three PRNG-chosen orders. For half of the compare cases some rules are updated first, so that current and stale rules are mixed. A part of the trees spell chain offsets in file names with leading zeros or as -chain0. A quarter of the trees each carry a leak construction: the last file in walk order appends a stored name that only the first file stores (must fail like the single invocation does), references a definition that only the first file makes, or follows a file with flags, prefix and suffix. A further lane runs the four commands on a synthetic tree of 50..70 assembly files (each includes a word list, a configuration file exists) with at most 40 open file descriptors (prlimit): --all must do what the single invocations do under the same limit, and a run of --all on a build with the race detector must report no data race and leave the same files. " +
 			"Oracle: the snapshot of A equals the snapshot of every B (for compare: the multiset of per-rule report blocks, and in github mode failure iff any single invocation fails); exit status of --all non-zero iff a single invocation fails. Non-trivial = >= 2 addressable files.",
 		Cases: func(env *core.Env, rng *rand.Rand) []core.Case {
 			n := env.N(300, 3000)
